@@ -7,7 +7,8 @@
 (*            independent measurements (n, plain, iso, spends, truthful)     *)
 (*   finalize finalize() -> generator (decoded by clvmr: e.shape, e.spends,  *)
 (*            e.exact = its length / its interned vbytes), e.cost, signature *)
-(*            (e.sig_eq_added, e.sig_verify), the verdict of                 *)
+(*            (e.sig_ids = the offered bundles whose signatures sum up to    *)
+(*            it, e.sig_verify = aggregate_verify), the verdict of           *)
 (*            run_block_generator2 on it (e.rbg2) and of a twin builder that *)
 (*            was only given the accepted attempts (e.twin)                  *)
 (* The tentative serializer size of an add is not logged: TLC infers it (the *)
@@ -56,7 +57,7 @@ FinalOk(e) ==
   /\ e.cost <= cfg.max                                                     \* WithinLimit
   /\ e.est = Est(cfg, St)                                                  \* cost() did not move since the last add
   /\ e.shape = "ok" /\ SameBag(e.spends, FlattenSpends(accepted))          \* OutputIsAccepted
-  /\ e.sig_eq_added /\ e.sig_verify \in {"ok", "na"}                       \* SigIsAggregate
+  /\ SameBag(e.sig_ids, sigBag) /\ e.sig_verify \in {"ok", "na"}           \* SigIsAggregate
   /\ e.rbg2.ok /\ SameBag(e.rbg2.coins, CoinsOf(FlattenSpends(accepted)))  \* consensus sees the accepted spends
   /\ AllTruthful(accepted) => /\ e.rbg2.cost = e.cost                      \* CostIsConsensus
                               /\ e.cost = ConsensusCost(cfg, accepted, e.exact)
